@@ -104,8 +104,21 @@ func c05R1(r *Report) {
 		!r.Anchor("R1", "peer.handleMessage", hm != nil) || !r.Anchor("R1", "tor.handleEvent", the != nil) || !r.Anchor("R1", "peer.handleEvent", phe != nil) || !r.Anchor("R1", "protocol.Write", pw != nil) {
 		return
 	}
+	var readerRoots []*ssa.Function
+	for _, nm := range []string{"Read", "Reader"} {
+		if f := p.Func("protocol", nm); f != nil {
+			readerRoots = append(readerRoots, f)
+		}
+	}
 	inProtocolReader := func(f *ssa.Function) bool {
-		return relPkg(f) == "protocol" && (enclosingNamed(f).Name() == "Read" || enclosingNamed(f).Name() == "Reader")
+		if relPkg(f) != "protocol" {
+			return false
+		}
+		if enclosingNamed(f).Name() == "Read" || enclosingNamed(f).Name() == "Reader" {
+			return true
+		}
+		// a private helper factored out of the reading side (readWithDeadline)
+		return p.inUnitOf(enclosingNamed(f), readerRoots...)
 	}
 	// (a) inbound messages
 	exhaustive(r, "R1", "inbound", hm, hm.Params[1], makeInterfaceSites(p, msgT, inProtocolReader), 24)
